@@ -65,9 +65,10 @@ fn into_cond(expr: &Expr) -> Condition {
                     .is_not_null()
                     .into_condition()
             } else {
-                SeaExpr::col(SeaAlias::new(key))
-                    .ne(value.unwrap())
-                    .into_condition()
+                // a record without the value differs from it too (`NULL <> v` is not true in sql)
+                SeaCond::any()
+                    .add(SeaExpr::col(SeaAlias::new(key)).ne(value.unwrap()))
+                    .add(SeaExpr::col(SeaAlias::new(key)).is_null())
             }
         }
         ExprOp::LT => SeaExpr::col(SeaAlias::new(key))
